@@ -78,24 +78,51 @@ impl History {
     }
 
     /// Save the history to disk
+    ///
+    /// The new content is written to a temporary file next to `history.json`, flushed, and then
+    /// renamed over it: a crash or a write error at any point leaves either the complete old or the
+    /// complete new history, never a truncated file (which `load_from_path` would silently replace
+    /// by an empty history).
     pub fn save(&self) -> Result<()> {
+        use std::io::Write;
+
         // Create parent directory if it doesn't exist
         if let Some(parent) = self.path.parent() {
             fs::create_dir_all(parent)?;
         }
 
-        let file = OpenOptions::new()
-            .create(true)
-            .write(true)
-            .truncate(true)
-            .open(&self.path)
-            .with_context(|| format!("Failed to create history file: {}", self.path.display()))?;
+        let temp_path = self
+            .path
+            .with_extension(format!("json.{}.tmp", std::process::id()));
 
-        let writer = BufWriter::new(file);
-        serde_json::to_writer_pretty(writer, &self.entries)
-            .with_context(|| format!("Failed to write history file: {}", self.path.display()))?;
+        let result = (|| -> Result<()> {
+            let file = OpenOptions::new()
+                .create(true)
+                .write(true)
+                .truncate(true)
+                .open(&temp_path)
+                .with_context(|| {
+                    format!("Failed to create history file: {}", temp_path.display())
+                })?;
 
-        Ok(())
+            let mut writer = BufWriter::new(file);
+            serde_json::to_writer_pretty(&mut writer, &self.entries)
+                .with_context(|| format!("Failed to write history file: {}", self.path.display()))?;
+            // An error of the final flush must not be lost in `BufWriter::drop`
+            writer
+                .flush()
+                .with_context(|| format!("Failed to write history file: {}", self.path.display()))?;
+            drop(writer);
+
+            fs::rename(&temp_path, &self.path)
+                .with_context(|| format!("Failed to replace history file: {}", self.path.display()))?;
+            Ok(())
+        })();
+
+        if result.is_err() {
+            let _ = fs::remove_file(&temp_path);
+        }
+        result
     }
 
     /// Add a new entry to the history
